@@ -15,7 +15,7 @@ import AxVerif.Lemmas.VacuumGrowth
 namespace AxVerif.Db.C13
 open AxVerif.Db
 
-def catT : Catalog := [⟨"t", [⟨"k", .big, false, false⟩, ⟨"v", .int, false, false⟩]⟩]
+def catT : Catalog := [{ name := "t", cols := [⟨"k", .big, false, false⟩, ⟨"v", .int, false, false⟩] }]
 
 def kEq (n : Int) : Option Pred := some ⟨"k", .eq, .int n⟩
 
@@ -235,22 +235,23 @@ theorem vacuum_removes_only_unneeded (cat : Catalog) (ops later : List VOp) (r :
       exact Row.vacuum_keeps_selected (vacSnap σ) S σ.lastCommitted r r' (fun u hu => (hadm u hu).1)
         (fun u hu => (hadm u hu).2) hsome v hsel
 
-/-- what VACUUM leaves of a row: no delete mark, only committed versions, and below the head only versions written by the
-    horizon transaction itself (the one that committed last): nothing older than the horizon survives -/
+/-- what VACUUM leaves of a row: no delete mark, only versions of committed transactions that were stored before, and at most
+    ONE version older than the horizon (`belowCount`): nothing behind the newest pre-horizon version survives -/
 theorem no_chain_survives (cat : Catalog) (ops : List VOp) (r r' : Row) (hr : r ∈ (reached cat ops).rows)
     (hv : r.vacuum VDefects.none (vacSnap (reached cat ops)) (reached cat ops).lastCommitted = some r') :
-    r'.deleters = [] ∧ r'.versions ≠ [] ∧ (∀ w ∈ r'.versions, (reached cat ops).isCommitted w.creator) ∧
-    (∀ w ∈ r'.versions.tail, w.creator = (reached cat ops).lastCommitted) := by
-  obtain ⟨h1, h2, h3, h4⟩ := vacuum_row_shape _ _ (vreach_rel cat ops).1 r r' hr hv
-  exact ⟨h1, h2, h3, fun w hw => (h4 w hw).1⟩
+    r'.deleters = [] ∧ r'.versions ≠ [] ∧
+    (∀ w ∈ r'.versions, (reached cat ops).isCommitted w.creator ∧ w.creator ≤ (reached cat ops).lastCommitted) ∧
+    r'.versions.Sublist r.versions ∧ belowCount (reached cat ops).lastCommitted r'.versions ≤ 1 :=
+  vacuum_row_shape _ _ (vreach_rel cat ops).1 r r' hr hv
 
-/-- **The general bound**, for arbitrary work before the VACUUM: what is stored afterwards is one version per surviving row plus
-    the versions that the single transaction which committed last had stacked below the heads.  Nothing older than the
-    horizon is kept, so chains cannot grow from one VACUUM to the next. -/
+/-- **The general bound**, for arbitrary work before the VACUUM: what is stored afterwards is at least one version per surviving
+    row and at most one per row plus the versions written by the single transaction that committed last (`stampedBy`).  Nothing
+    older is kept, so chains cannot grow from one VACUUM to the next. -/
 theorem size_after_vacuum_le (cat : Catalog) (ops : List VOp) :
+    ((reached cat ops).vacuum Defects.none VDefects.none).rows.length ≤ ((reached cat ops).vacuum Defects.none VDefects.none).size ∧
     ((reached cat ops).vacuum Defects.none VDefects.none).size ≤
       ((reached cat ops).vacuum Defects.none VDefects.none).rows.length +
-        stackedBy (reached cat ops).lastCommitted (reached cat ops).rows := by
+        stampedBy (reached cat ops).lastCommitted (reached cat ops).rows := by
   unfold State.size
   rw [vacuum_rows]
   exact sizeRows_vacuum_le _ _ (vreach_rel cat ops).1 _ (fun r hr => hr)
@@ -272,10 +273,14 @@ theorem vacuum_ends_open_sessions (cat : Catalog) (ops : List VOp) (s : String) 
     simp only [τ, vfinal_append]; exact this
   have hs : τ.db.sessions = [] := by
     simp only [τ, vfinal_append, vfinal, vstep]
-    show (State.vacuumWith D0 false (vacuumRows V0) _ _).sessions = []
+    show (State.vacuumWith D0 false (vacuumRows V0) _ _ _).sessions = []
     simp only [State.vacuumWith]
     rw [commitTxn_sessions]; rfl
-  simp [vstep, hk, step, stepCore, hs, lookup]
+  have hl : lookup s τ.db.sessions = none := by rw [hs]; rfl
+  refine ⟨?_, ?_, ?_, hs⟩
+  · simp only [vstep, hk, List.contains_nil, Bool.false_eq_true, if_false, step, stepCore, hl]
+  · simp only [vstep, hk, List.contains_nil, Bool.false_eq_true, if_false, step, stepCore, hl]
+  · simp only [vstep, hk, List.contains_nil, Bool.false_eq_true, if_false, step, stepCore, hl]
 
 /-- **VACUUM frees space**: it never stores more than before — in any state, for any defect setting -/
 theorem vacuum_size_le (D : Defects) (V : VDefects) (σ : State) : (σ.vacuum D V).size ≤ σ.size := by
@@ -313,25 +318,25 @@ theorem vacuum_idempotent_partial (cat : Catalog) (ops : List VOp) :
     intro r hrm w hw
     have hlt := vacuum_no_stamp_at_horizon σ _ hr r hrm w.creator (by
       simp only [Row.owners, List.mem_append, List.mem_map]
-      exact Or.inl ⟨w, List.mem_of_mem_tail hw, rfl⟩)
+      exact Or.inl ⟨w, hw, rfl⟩)
     exact Nat.ne_of_lt hlt
   have hs3 : σ3.size = σ3.rows.length := by
     apply size_vacuum_eq_rows σ2 _ hr2
     intro r hrm w hw
     have hlt := vacuum_no_stamp_at_horizon σ1 _ hr1 r hrm w.creator (by
       simp only [Row.owners, List.mem_append, List.mem_map]
-      exact Or.inl ⟨w, List.mem_of_mem_tail hw, rfl⟩)
+      exact Or.inl ⟨w, hw, rfl⟩)
     exact Nat.ne_of_lt hlt
   refine ⟨?_, vacuum_size_le _ _ σ1, vacuum_twice_rows_length σ _ hr, hs2, ?_⟩
   · exact (hr2.core.committed).trans hr1.core.committed.symm
   · rw [hs3, hs2]; exact vacuum_twice_rows_length σ1 _ hr1
 
 /-- the size part of the design's statement is false of the code-mirroring model: `vaccum_with` keeps the deltas whose `xmin`
-    equals the horizon, so a transaction that updated a row twice leaves two versions after the first VACUUM, one after the
-    second -/
+    equals the horizon and the newest version older than it, so a transaction that updated a row twice leaves three versions
+    after the first VACUUM, one after the second -/
 theorem vacuum_size_not_idempotent_witness :
     let σ := reached catT (pre ++ [.op (.batch [.upd "t" "v" true (.int 1) none, .upd "t" "v" true (.int 1) none])])
-    (σ.vacuum {} {}).size = 4 ∧ ((σ.vacuum {} {}).vacuum {} {}).size = 2 := by
+    (σ.vacuum {} {}).size = 6 ∧ ((σ.vacuum {} {}).vacuum {} {}).size = 2 := by
   decide
 
 /-! ### bounded growth -/
@@ -358,7 +363,7 @@ theorem cycle_step (τ : VState) (α : Spec.State) (h : VRel τ α)
     (hK : ∀ r ∈ τ.db.rows, ∀ u ∈ r.owners, u < τ.db.lastCommitted) (st : Stmt) :
     (∃ α', VRel (cycle1 τ st) α') ∧
     (∀ r ∈ (cycle1 τ st).db.rows, ∀ u ∈ r.owners, u < (cycle1 τ st).db.lastCommitted) ∧
-    (cycle1 τ st).db.size = (cycle1 τ st).db.rows.length := by
+    (cycle1 τ st).db.rows.length ≤ (cycle1 τ st).db.size ∧ (cycle1 τ st).db.size ≤ 2 * (cycle1 τ st).db.rows.length := by
   have h1 := vstep_ok τ α h (.op (.auto st))
   have hdb : (vstep D0 V0 τ (.op (.auto st))).1.db = (step D0 τ.db (.auto st)).1 := by simp [vstep]
   have h2 := vstep_ok _ _ h1.2 .vacuum
@@ -366,7 +371,7 @@ theorem cycle_step (τ : VState) (α : Spec.State) (h : VRel τ α)
   refine ⟨⟨_, h2.2⟩, ?_, ?_⟩
   · rw [cycle1_db]; exact vacuum_no_stamp_at_horizon _ _ hrel1
   · rw [cycle1_db]
-    apply size_vacuum_eq_rows _ _ hrel1
+    apply size_vacuum_le_two_rows _ _ hrel1
     have htail := auto_tail τ.db α h.1 st (fun u => u < τ.db.lastCommitted ∧ u < τ.db.txns.length) (by
       intro r hr w hw
       have hown : w.creator ∈ r.owners := by
@@ -378,23 +383,26 @@ theorem cycle_step (τ : VState) (α : Spec.State) (h : VRel τ α)
 
 theorem cycles_invariant : ∀ (sts : List Stmt) (τ0 : VState), sts ≠ [] → (∃ α, VRel τ0 α) →
     (∀ r ∈ τ0.db.rows, ∀ u ∈ r.owners, u < τ0.db.lastCommitted) →
-    (cycles τ0 sts).db.size = (cycles τ0 sts).db.rows.length
+    (cycles τ0 sts).db.rows.length ≤ (cycles τ0 sts).db.size ∧ (cycles τ0 sts).db.size ≤ 2 * (cycles τ0 sts).db.rows.length
   | [], _, h, _, _ => (h rfl).elim
   | [st], τ0, _, ⟨α0, hr⟩, hK => by
-    show (cycle1 τ0 st).db.size = (cycle1 τ0 st).db.rows.length
+    show (cycle1 τ0 st).db.rows.length ≤ (cycle1 τ0 st).db.size ∧ (cycle1 τ0 st).db.size ≤ 2 * (cycle1 τ0 st).db.rows.length
     exact (cycle_step τ0 α0 hr hK st).2.2
   | st :: st2 :: rest, τ0, _, ⟨α0, hr⟩, hK => by
-    show (cycles (cycle1 τ0 st) (st2 :: rest)).db.size = (cycles (cycle1 τ0 st) (st2 :: rest)).db.rows.length
+    show (cycles (cycle1 τ0 st) (st2 :: rest)).db.rows.length ≤ (cycles (cycle1 τ0 st) (st2 :: rest)).db.size ∧
+      (cycles (cycle1 τ0 st) (st2 :: rest)).db.size ≤ 2 * (cycles (cycle1 τ0 st) (st2 :: rest)).db.rows.length
     obtain ⟨hr', hK', _⟩ := cycle_step τ0 α0 hr hK st
     exact cycles_invariant (st2 :: rest) _ (by simp) hr' hK'
 
 /-- **Bounded growth.**  Start anywhere (any history `ops`), run VACUUM once, then any number of cycles
     "one autocommit statement (an UPDATE of every row, or any other statement, failing ones included); VACUUM": after every
-    cycle the store holds exactly one version per row and no delete mark — `size = number of rows`, however many cycles
-    have run.  Version chains do not grow. -/
+    cycle the store holds, per row, the head version and at most the one version older than the horizon that `vaccum_with`
+    keeps, and no delete mark — `rows ≤ size ≤ 2 · rows`, however many cycles have run.  Version chains do not grow. -/
 theorem bounded_growth (cat : Catalog) (ops : List VOp) (sts : List Stmt) (hne : sts ≠ []) :
-    (cycles (vfinal Defects.none VDefects.none (VState.init cat) (ops ++ [.vacuum])) sts).db.size =
-      (cycles (vfinal Defects.none VDefects.none (VState.init cat) (ops ++ [.vacuum])) sts).db.rows.length := by
+    (cycles (vfinal Defects.none VDefects.none (VState.init cat) (ops ++ [.vacuum])) sts).db.rows.length ≤
+      (cycles (vfinal Defects.none VDefects.none (VState.init cat) (ops ++ [.vacuum])) sts).db.size ∧
+    (cycles (vfinal Defects.none VDefects.none (VState.init cat) (ops ++ [.vacuum])) sts).db.size ≤
+      2 * (cycles (vfinal Defects.none VDefects.none (VState.init cat) (ops ++ [.vacuum])) sts).db.rows.length := by
   have hrel0 := vreach_rel cat ops
   have h0 := vstep_ok _ _ hrel0 .vacuum
   apply cycles_invariant sts _ hne
@@ -430,8 +438,8 @@ theorem forget_aborted_unobservable (cat : Catalog) (ops : List VOp) (h : Nat) :
   have hu' : u ∈ r'.versions.map (·.creator) := by
     simp only [Row.owners, s1, List.append_nil] at hu; exact hu
   obtain ⟨w, hw, rfl⟩ := List.mem_map.1 hu'
-  obtain ⟨t, ht, hst⟩ := s3 w hw
-  obtain ⟨t', g1, g2⟩ := frame_finished (reached cat ops) (vacuumRows V0) _ t ht (by rw [hst]; simp)
+  obtain ⟨⟨t, ht, hst⟩, _⟩ := s3 w hw
+  obtain ⟨t', g1, g2⟩ := frame_finished (reached cat ops) (vacuumRows V0) (vacuumIndex V0) _ t ht (by rw [hst]; simp)
   have g1' : σv.txns[w.creator]? = some t' := g1
   have hcomm : t'.status = Status.committed := by rw [g2, hst]
   -- both snapshots see it
@@ -471,16 +479,18 @@ def busy : List VOp :=
   pre ++ [.op (.auto (.upd "t" "v" true (.int 1) (kEq 1))),
           .op (.begin "s1"), .op (.exec "s1" (.del "t" (kEq 2))), .op (.exec "s1" (.ins "t" [[.int 3, .int 30]])), .op (.rollback "s1")]
 
-/-- … VACUUM removes the superseded version, the rolled-back row and the stale delete mark (size 5 → 2, 3 rows → 2) and a
-    transaction beginning afterwards reads the same two rows as one beginning before -/
-example : (reached catT busy).size = 5 ∧ ((reached catT busy).vacuum {} {}).size = 2 ∧
+/-- … VACUUM removes the rolled-back row and the stale delete mark (size 5 → 3, 3 rows → 2; the superseded version of row 1 is the
+    newest one below the horizon and stays until the next VACUUM) and a transaction beginning afterwards reads the same two rows
+    as one beginning before -/
+example : (reached catT busy).size = 5 ∧ ((reached catT busy).vacuum {} {}).size = 3 ∧
+    (((reached catT busy).vacuum {} {}).vacuum {} {}).size = 2 ∧
     (reached catT busy).rows.length = 3 ∧ ((reached catT busy).vacuum {} {}).rows.length = 2 ∧
     (view {} (((reached catT busy).vacuum {} {}).freshSnap {}) ((reached catT busy).vacuum {} {}).rows).map (·.vals) =
       [[.int 1, .int 11], [.int 2, .int 20]] := by decide
 
 /-- an instance of `bounded_growth` (three UPDATE-all cycles) and of the hypothesis of `vacuum_keeps_later_sessions_consistent` -/
 example : (cycles (vfinal {} {} (VState.init catT) (busy ++ [.vacuum]))
-    [.upd "t" "v" true (.int 1) none, .upd "t" "v" true (.int 1) none, .upd "t" "v" true (.int 1) none]).db.size = 2 := by decide
+    [.upd "t" "v" true (.int 1) none, .upd "t" "v" true (.int 1) none, .upd "t" "v" true (.int 1) none]).db.size = 4 := by decide
 
 example : ∀ op ∈ [Op.auto (.upd "t" "v" true (.int 1) none), .begin "s2", .exec "s2" (.del "t" none), .commit "s2"],
     op.keeps "s1" = true := by decide
